@@ -70,7 +70,7 @@ static cstl_map_t vf_m;                             /* the map under test */
 static int vf_cmp(const void * a, const void * b, void * p)
 {
     MA(p == &vf_cmp_cookie, "map: the compare callback receives the private pointer given to init");
-    return *(const int *)a - *(const int *)b;
+    return vf_signmag(*(const int *)a > *(const int *)b, *(const int *)a < *(const int *)b);
 }
 
 /* From here on the harness dereferences only addresses it knows (static objects, or blocks it
